@@ -223,6 +223,22 @@ class Model:
             raise AnalysisError(f"anchor vanished: function {qual}")
         return mi.functions[rest]
 
+    def declared_not_none(self, call, module: str) -> bool:
+        """Is this call term a direct call of a package function whose declared return type excludes None? The package is
+        type-checked (`mypy --strict` in its CI), so a path that assumes `f(...) is None` for such a callee is infeasible.
+        Used only to discard infeasible paths, never to discharge an obligation."""
+        f = call[1] if call and call[0] == "call" else None
+        if not f or f[0] != "global" or f[1] not in self.modules:
+            return False
+        r = self.resolve_global(f[1], f[2])
+        if not r or r[0] not in ("func", "memo_alias"):
+            return False
+        ann = r[1].node.returns
+        if ann is None:
+            return False
+        text = ann.value if isinstance(ann, ast.Constant) and isinstance(ann.value, str) else ast.unparse(ann)
+        return not any(w in text for w in ("None", "Optional", "Any", "object", "TypeVar", "_T"))
+
     def has_func(self, qual: str) -> bool:
         mod, _, rest = qual.partition(".")
         return mod in self.modules and rest in self.modules[mod].functions
